@@ -45,6 +45,34 @@ def oracle_schedule(n, bs, ep, mi, has_cb, stops):
     return out
 
 
+def oracle_life(n, ops):
+    """documented life cycle (first principles, independent of fairlearn and of the Lean model):
+    predict before any fit -> NotFittedError; the first partial_fit builds the models, later ones continue;
+    fit builds new models unless warm_start is set and models exist; n_iter_ = steps of the last fit.
+    Returns per-op tokens `res:engines:n_iter:current engine/steps it has seen` and the slices of the current engine."""
+    built, cur, slices, n_iter = 0, None, [], None
+    out = []
+    for op in ops:
+        res = "ok"
+        if op["op"] == "predict":
+            if cur is None:
+                res = "notfitted"
+        elif op["op"] == "pfit":
+            if cur is None:
+                built += 1
+                cur, slices = built, []
+            slices.append((op["lo"], op["hi"]))
+        else:
+            if not (op["warm"] and cur is not None):
+                built += 1
+                cur, slices = built, []
+            plan = oracle_schedule(n, op["bs"], op["ep"], op["mi"], False, [])
+            slices += [(lo, hi) for lo, hi, _, _ in plan]
+            n_iter = len(plan)
+        out.append(f"{res}:{built}:{'x' if n_iter is None else n_iter}:" + ("x" if cur is None else f"{cur}/{len(slices)}"))
+    return out, (None if cur is None else list(slices))
+
+
 def _labels(style, idx):
     if style == "str":
         return ["k" + "abcdefg"[i] for i in idx]
@@ -56,7 +84,7 @@ _ENGINE = {}
 # sha256 of the DEFINITIONS (doc comments and blank lines stripped) of lean/FairModel/Generated/AdvScheduleSrc.lean as
 # lifted from the pinned tree.  While it matches, a model-vs-oracle disagreement is a bug of this machinery (exit 2);
 # after a source edit that changed the lifted configuration it is a broken tie (exit 1).
-PINNED_SRC_SHA256 = "d1151c5572deedc54ec4c03818fe62ae860ae65bddf3cacc823bbc6d705dc713"
+PINNED_SRC_SHA256 = "2a6782c3963fb6a11e55dd01c69785874c9377aa8b68efd6fe5be320e2bc5775"
 _SRC_STATE = {}
 
 
@@ -95,12 +123,19 @@ def recording_engine():
 
     class RecordingEngine(BackendEngine):
         LOG = []
+        GEN = 0          # engines constructed so far (every __setup of the estimator builds a new one)
 
         def __init__(self, base, X, Y, A):
             self.base = base
+            RecordingEngine.GEN += 1
+            self.gen = RecordingEngine.GEN
+            self.rows = []           # (lo, hi) of every train_step this engine has seen
 
         def train_step(self, X, Y, A):
             RecordingEngine.LOG.append((X, Y, A))
+            import numpy as np
+            r = [int(v) for v in np.asarray(X)[:, 0]]
+            self.rows.append((r[0], r[-1] + 1) if r == list(range(r[0], r[-1] + 1)) else ("?", r))
             return (0.0, 0.0)
 
         def evaluate(self, X):
@@ -222,9 +257,37 @@ class CHECK(Check):
                 "Xtest": [[str(F(rng.randint(-12, 12), 4)) for _ in range(d)] for _ in range(rng.randint(1, 6))],
                 "container": rng.choice(["ndarray", "ndarray", "pandas"])}
 
+    def _life_case(self, rng, tier):
+        """call histories: fit (cold / warm), partial_fit, predict in any order on one estimator (recording engine)"""
+        n = rng.randint(2, 12)
+        est = rng.choice(["classifier", "regressor", "base"])
+        ops = []
+        for _ in range(rng.choice([1, 2, 2, 3, 3, 4, 5])):
+            r = rng.random()
+            if r < 0.2:
+                ops.append({"op": "predict"})
+            elif r < 0.55:
+                w = rng.randint(2, n)
+                lo = rng.randint(0, n - w)
+                ops.append({"op": "pfit", "lo": lo, "hi": lo + w, "cg": rng.random() < 0.3})
+            else:
+                bs = rng.choice([-1, rng.randint(1, n), n + 1])
+                ep = rng.choice([1, 1, 2, -1])
+                mi = rng.choice([-1, -1, rng.randint(1, 5)])
+                if ep == -1 and mi == -1:
+                    mi = rng.randint(1, 5)
+                ops.append({"op": "fit", "bs": bs, "ep": ep, "mi": mi, "warm": rng.random() < 0.5})
+        return {"kind": "life", "n": n, "est": est, "ops": ops, "container": rng.choice(["ndarray", "ndarray", "pandas"])}
+
     def generate(self, rng, tier):
         while True:
-            yield self._sched_case(rng, tier) if rng.random() < 0.72 else self._real_case(rng, tier)
+            r = rng.random()
+            if r < 0.62:
+                yield self._sched_case(rng, tier)
+            elif r < 0.74:
+                yield self._life_case(rng, tier)
+            else:
+                yield self._real_case(rng, tier)
 
     def exhaustive(self, tier):
         for n in range(1, 9):
@@ -237,6 +300,20 @@ class CHECK(Check):
                                    "est": "base", "style": "int", "container": "ndarray"}
 
     def shrink(self, case):
+        if case["kind"] == "life":
+            ops = case["ops"]
+            for i in range(len(ops)):
+                if len(ops) > 1:
+                    yield dict(case, ops=ops[:i] + ops[i + 1:])
+            for i, op in enumerate(ops):
+                if op["op"] == "fit":
+                    for k, v in (("ep", 1), ("mi", -1), ("bs", -1)):
+                        if op[k] != v and not (k == "mi" and op["ep"] == -1):
+                            yield dict(case, ops=ops[:i] + [dict(op, **{k: v})] + ops[i + 1:])
+            for k, v in (("est", "base"), ("container", "ndarray")):
+                if case[k] != v:
+                    yield dict(case, **{k: v})
+            return
         if case["kind"] == "sched":
             for k, lo in (("n", 1), ("ep", 1), ("mi", 1), ("bs", 1)):
                 v = case[k]
@@ -443,7 +520,61 @@ class CHECK(Check):
                    if case["ykind"] != "continuous" else None)
         return out
 
+    def _impl_life(self, case):
+        import numpy as np
+        from sklearn.exceptions import NotFittedError
+        from fairlearn.adversarial import AdversarialFairnessClassifier, AdversarialFairnessRegressor
+        from fairlearn.adversarial._adversarial_mitigation import _AdversarialFairness
+        Eng = recording_engine()
+        Eng.LOG, Eng.GEN = [], 0
+        n = case["n"]
+        X = np.zeros((n, 2))
+        X[:, 0] = np.arange(n)
+        X[:, 1] = 0.5
+        if case["est"] in ("regressor", "base"):
+            y = [i + 0.5 for i in range(n)]
+            cls = AdversarialFairnessRegressor if case["est"] == "regressor" else _AdversarialFairness
+        else:
+            y = _labels("int", [i % 2 for i in range(n)])
+            cls = AdversarialFairnessClassifier
+        sf = [i + 0.25 for i in range(n)]
+        est = cls(backend=Eng, shuffle=False)
+        out = []
+
+        def box(vals, lo, hi, name):
+            if case["container"] == "pandas":
+                import pandas as pd
+                return pd.Series(vals[lo:hi], index=[f"r{i}" for i in range(lo, hi)], name=name)
+            return np.array(vals[lo:hi])
+
+        for op in case["ops"]:
+            res = "ok"
+            try:
+                if op["op"] == "predict":
+                    p = est.predict(X)
+                    if len(p) != n:
+                        res = "badshape"
+                elif op["op"] == "pfit":
+                    lo, hi = op["lo"], op["hi"]
+                    kw = {"classes": np.unique(np.array(y))} if op["cg"] else {}
+                    est.partial_fit(X[lo:hi], box(y, lo, hi, "y"), sensitive_features=box(sf, lo, hi, "sf"), **kw)
+                else:
+                    est.set_params(batch_size=op["bs"], epochs=op["ep"], warm_start=op["warm"])
+                    est.max_iter = op["mi"]
+                    est.fit(X, box(y, 0, n, "y"), sensitive_features=box(sf, 0, n, "sf"))
+            except NotFittedError:
+                res = "notfitted"
+            except ValueError:
+                res = "valueerror"
+            eng = getattr(est, "backendEngine_", None)
+            ni = getattr(est, "n_iter_", None)
+            out.append(f"{res}:{Eng.GEN}:{'x' if ni is None else int(ni)}:" + ("x" if eng is None else f"{eng.gen}/{len(eng.rows)}"))
+        eng = getattr(est, "backendEngine_", None)
+        return {"ops": out, "slices": None if eng is None else [list(r) for r in eng.rows]}
+
     def impl(self, case):
+        if case["kind"] == "life":
+            return self._impl_life(case)
         return self._impl_sched(case) if case["kind"] == "sched" else self._impl_real(case)
 
     # ------------------------------------------------------------------------------------------ protocol
@@ -457,7 +588,21 @@ class CHECK(Check):
     def _has_cb(case):
         return bool(case["cbs"]) if case["kind"] == "sched" else bool(case["stops"])
 
+    @staticmethod
+    def _life_tokens(case):
+        t = []
+        for op in case["ops"]:
+            if op["op"] == "predict":
+                t.append("Q")
+            elif op["op"] == "pfit":
+                t.append(f"P:{op['lo']}:{op['hi']}:{proto.b(op['cg'])}")
+            else:
+                t.append(f"F:{case['n']}:{op['bs']}:{op['ep']}:{op['mi']}:{proto.b(op['warm'])}")
+        return " ".join(t)
+
     def lines(self, case, o):
+        if case["kind"] == "life":
+            return ["schedlife.run " + self._life_tokens(case)]
         args = f"{case['n']} {case['bs']} {case['ep']} {case['mi']} {proto.b(self._has_cb(case))} {proto.lst(self._stops(case))}"
         if case["kind"] == "sched":
             cbtok = ";".join(proto.lst(sorted(set(c["stops"]))) for c in case["cbs"]) if case["cbs"] else "x"
@@ -496,6 +641,8 @@ class CHECK(Check):
             return [Problem("correspondence", f"implementation crashed: {o}", "impl-total")]
         if o.get("diverged"):
             return []      # generated learning rate made training overflow to NaN: nothing to compare (tagged)
+        if case["kind"] == "life":
+            return self._judge_life(case, o, mo)
         probs = []
         has_cb, stops = self._has_cb(case), self._stops(case)
         want = oracle_schedule(case["n"], case["bs"], case["ep"], case["mi"], has_cb, stops)
@@ -624,8 +771,50 @@ class CHECK(Check):
                                      "C17.src_predict"))
         return probs
 
+    def _judge_life(self, case, o, mo):
+        probs = []
+        want_ops, want_sl = oracle_life(case["n"], case["ops"])
+        fmt = lambda sl: "x" if sl is None else ("-" if not sl else ",".join(f"{a}:{b}" for a, b in sl))  # noqa: E731
+        if mo is not None:
+            wm = " ".join(want_ops) + " " + fmt(want_sl)
+            if mo[0] != wm:
+                probs.append(model_problem(f"life-cycle model {mo[0][:160]} vs documented {wm[:160]}"))
+        names = [op["op"] + ("(warm)" if op.get("warm") else "") for op in case["ops"]]
+        for i, (got, want) in enumerate(zip(o["ops"], want_ops)):
+            if got != want:
+                g, w = got.split(":"), want.split(":")
+                if g[0] != w[0]:
+                    what, rel = f"returned/raised `{g[0]}`, documented `{w[0]}`", "C17.predict_before_fit_rejected" if w[0] == "notfitted" else "C17.accepts"
+                elif g[1] != w[1] or g[3].split("/")[0] != w[3].split("/")[0]:
+                    what = f"{g[1]} model initialisations so far (current models: no. {g[3].split('/')[0]}), documented {w[1]} (no. {w[3].split('/')[0]})"
+                    rel = "C17.fit_warm_start_continues" if case["ops"][i].get("warm") else ("C17.fit_cold_start" if case["ops"][i]["op"] == "fit" else "C17.partial_fit_later_calls_continue")
+                elif g[2] != w[2]:
+                    what, rel = f"n_iter_ = {g[2]}, documented {w[2]}", "C17.n_iter"
+                else:
+                    what, rel = f"the current models have seen {g[3].split('/')[1]} training steps, documented {w[3].split('/')[1]}", "C17.fit_eq_partial_fit"
+                probs.append(Problem("property", f"call {i + 1} of {names}: {what}", rel))
+                break
+        else:
+            if o["slices"] is not None and want_sl is not None and [tuple(s) for s in o["slices"]] != want_sl:
+                probs.append(Problem("property", f"after {names} the current models were trained on rows {o['slices'][:8]}, documented {want_sl[:8]}",
+                                     "C17.fit_eq_partial_fit"))
+        if mo is not None and not probs:
+            im = " ".join(o["ops"]) + " " + fmt(None if o["slices"] is None else [tuple(s) for s in o["slices"]])
+            if im != mo[0]:
+                probs.append(Problem("correspondence", f"observed {im[:160]} vs life-cycle model {mo[0][:160]}", "C17.lifted_lifecycle"))
+        return probs
+
     def signature(self, case, o):
         import json
+        if case["kind"] == "life":
+            ops = case["ops"]
+            tags = ["kind=life", f"life_ops={len(ops)}", f"est={case['est']}"]
+            seq = [op["op"] + ("_warm" if op.get("warm") else "") for op in ops]
+            for a, b in zip(seq, seq[1:]):
+                tags.append(f"life:{a}->{b}")
+            if seq and seq[0] == "predict":
+                tags.append("life:predict_first")
+            return json.dumps(case, sort_keys=True), len(ops) >= 2, tags
         tags = [f"kind={case['kind']}"]
         want = oracle_schedule(case["n"], case["bs"], case["ep"], case["mi"], self._has_cb(case), self._stops(case))
         nsteps = 0 if want == "err" else len(want)
